@@ -18,12 +18,12 @@ WARM_Q = [[0.3, -0.2, 0.5], [0.0, 0.0, 0.9], [0.0, 0.0, 0.0]]
 WARM_ANGLES = [0.1, 1.3, 2.9, 4.4, 5.9]
 
 
-def warm(obj, pts=None):
+def warm(obj, pts=None, light=False):
     """Ask everything once; answers are discarded, exceptions are not our business here."""
     import numpy as np
     with warnings.catch_warnings():
         warnings.simplefilter("ignore")
-        for name in dir(type(obj)):
+        for name in (("volume", "area", "centroid", "inertia_tensor", "face_centroids", "edges") if light else dir(type(obj))):
             if name.startswith("_") or name in ("plot", "to_plato_scene"):
                 continue
             attr = getattr(type(obj), name, None)
@@ -96,6 +96,7 @@ def reach(cls_name, verts, radius=None, normal=None, variant=0, faces=None):
                     obj.volume = obj.volume * k ** 3
                 else:
                     obj.area = obj.area * k ** 2
+                warm(obj, _around(obj, dim3), light=True)
                 obj.centroid = np.asarray(obj.centroid) + (m - _mean(obj))
             else:
                 if variant % 2 == 0:
@@ -111,6 +112,9 @@ def reach(cls_name, verts, radius=None, normal=None, variant=0, faces=None):
                     else:
                         core.area = core.area * k ** 2
                     obj.radius = obj.radius * k
+                # asked again between the two mutations: what is stored now belongs to the right size at the wrong place
+                warm(obj, _around(obj, dim3), light=True)
+                warm(core, _around(obj, dim3), light=True)
                 core.centroid = np.asarray(core.centroid) + (m - _mean(obj))
         got = np.asarray(obj.vertices, dtype=float)
         if got.shape != verts.shape:
@@ -131,3 +135,22 @@ def reach(cls_name, verts, radius=None, normal=None, variant=0, faces=None):
 def _mean(obj):
     import numpy as np
     return np.asarray(obj.vertices, dtype=float).mean(axis=0)
+
+
+_DIRS = [[1, 0, 0], [0, 1, 0], [0, 0, 1], [-1, 0, 0], [0, -1, 0], [0, 0, -1], [1, 1, 1], [-1, 1, -1]]
+
+
+def _around(obj, dim3):
+    """Points inside, in a rounding layer and outside the current geometry (in its plane for a polygon)."""
+    import numpy as np
+    v = np.asarray(obj.vertices, dtype=float)
+    m = v.mean(axis=0)
+    size = float(np.max(np.linalg.norm(v - m, axis=1))) or 1.0
+    d = np.array(_DIRS, dtype=float)
+    d /= np.linalg.norm(d, axis=1)[:, None]
+    pts = np.concatenate([m + f * size * d for f in (0.31, 0.83, 1.09, 1.61)])
+    if not dim3:
+        n = np.cross(v[1] - v[0], v[2] - v[0])
+        n /= np.linalg.norm(n) or 1.0
+        pts = pts - np.outer((pts - m) @ n, n)
+    return pts
